@@ -11,9 +11,20 @@
    for every operation sequence, every table size, agree with
    a reference insertion-ordered map on lookups, size,
    emptiness, iteration order, equality comparison and
-   returned iterators (all 22 operations, several variables) -> C02_refines_ordered_map (whole histories,
+   returned iterators (all 24 operations, several variables) -> C02_refines_ordered_map (whole histories,
                                                                 results and observations of every variable
-                                                                after every operation), C02_step_refines
+                                                                after every operation), C02_step_refines,
+                                                                C02_full_invariant_step (one step under the full
+                                                                invariant: chains + sentinel link + node recycling)
+   iteration order through iterators: a traversal from begin()
+   with operator++ visits the sequence, a traversal from end()
+   with operator-- (walking the prev pointers from the end
+   sentinel until _begin.item is met) visits its reverse      -> C02_iter_back_is_rev_forward (every table satisfying the
+                                                                invariant), C02_iter_back_reachable (every reachable
+                                                                state), C02_iter_step_results (the two operations),
+                                                                C02_walk_back_from_rank (started at any rank: the
+                                                                prefix before it, reversed); inside
+                                                                C02_refines_ordered_map / C02_step_refines as well
    bucket-chain + order-list invariant: established by the
    constructors, preserved by every operation, holds in
    every reachable state                                     -> C02_invariant_init, C02_invariant_step,
@@ -53,7 +64,10 @@
 
    Validated by correspondence only (checks/C02.py): that the Model mirrors the C++ code (results,
    public state, bucket index and chain order of every key, slot of every item, free list, number of
-   blocks, compared after every operation); the concrete hash functions hash_int / hash_str.
+   blocks, compared after every operation); the concrete hash functions hash_int8 .. hash_uint64 (= hash_cast
+   with the width/signedness Gen_HashKeys.v regenerates from Base.hpp), hash_ptr, hash_str; that the prev pointer of the item
+   at rank r+1 designates the item at rank r (the list representation the backward walk is defined on; the harness
+   checks every prev link on every dump and drives operator-- itself).
    Preconditions of the API (position <= size, rank < size, non-empty for front/back/removeFront/
    removeBack, existing variable, operation defined for the container kind) are modelled as RPre: the
    call is not made.  x = x is modelled with the self-assignment guard (see level_note of the check). *)
@@ -86,11 +100,13 @@ Theorem C02_invariant_reachable :
 Proof. exact invariant_reachable. Qed.
 Print Assumptions C02_invariant_reachable.
 
+(* (the premise slots_nodup - no two live items of a table share a slot - is used by the backward traversal only; it is
+   part of the node-recycling invariant pool_ok, see C02_full_invariant_step / C02_pool_reachable) *)
 Theorem C02_step_refines :
   forall (K : Type) (keqb : K -> K -> bool) (hash : K -> Z),
   (forall a b : K, keqb a b = true <-> a = b) ->
   forall (kd : kind) (st : list (table K)) (o : op K),
-  state_ok K hash st ->
+  state_ok K hash st -> Forall (slots_nodup K) st ->
   state_ok K hash (fst (step keqb hash kd st o)) /\
   spec_step keqb kd (abs_st K st) o = (abs_st K (fst (step keqb hash kd st o)), snd (step keqb hash kd st o)).
 Proof. exact step_refines. Qed.
@@ -321,6 +337,57 @@ Theorem C02_sentinel_reachable :
 Proof. exact anchored_reachable. Qed.
 Print Assumptions C02_sentinel_reachable.
 
+(* ---- traversal through iterators ---------------------------------------------------------------------- *)
+(* one step under the full invariant (chains + order list, endItem.prev, node recycling): the invariant holds
+   again and the step commutes with the reference - for all 24 operations *)
+Theorem C02_full_invariant_step :
+  forall (K : Type) (keqb : K -> K -> bool) (hash : K -> Z),
+  (forall a b : K, keqb a b = true <-> a = b) ->
+  forall (kd : kind) (st : list (table K)) (o : op K),
+  state_ok K hash st -> Forall (links_ok K) st -> Forall (pool_ok K) st ->
+  (state_ok K hash (fst (step keqb hash kd st o)) /\
+   Forall (links_ok K) (fst (step keqb hash kd st o)) /\
+   Forall (pool_ok K) (fst (step keqb hash kd st o))) /\
+  spec_step keqb kd (abs_st K st) o = (abs_st K (fst (step keqb hash kd st o)), snd (step keqb hash kd st o)).
+Proof. exact full_step. Qed.
+Print Assumptions C02_full_invariant_step.
+
+(* iterate_backwards = rev iterate_forwards, from the invariant *)
+Theorem C02_iter_back_is_rev_forward :
+  forall (K : Type) (hash : K -> Z) (t : table K),
+  chains_ok K hash t -> pool_ok K t -> iter_back t = option_map (@rev (K * Z)) (iter_fwd t).
+Proof. exact iter_back_ok. Qed.
+Print Assumptions C02_iter_back_is_rev_forward.
+
+(* ... hence in every reachable state, for every key type, hash function, kind, capacities and history *)
+Theorem C02_iter_back_reachable :
+  forall (K : Type) (keqb : K -> K -> bool) (hash : K -> Z),
+  (forall a b : K, keqb a b = true <-> a = b) ->
+  forall (kd : kind) (caps : list Z) (ops : list (op K)),
+  Forall (fun c : Z => 0 <= c) caps ->
+  Forall (fun t : table K => iter_fwd t = Some (abs K t) /\ iter_back t = Some (rev (abs K t)))
+         (states K keqb hash kd (start K caps) ops).
+Proof. exact iter_back_reachable. Qed.
+Print Assumptions C02_iter_back_reachable.
+
+Theorem C02_iter_step_results :
+  forall (K : Type) (keqb : K -> K -> bool) (hash : K -> Z) (kd : kind) (st : list (table K)) (x : nat) (t : table K),
+  state_ok K hash st -> Forall (pool_ok K) st -> nth_error st x = Some t ->
+  step keqb hash kd st (OIterFwd x) = (st, RWalk (Some (abs K t))) /\
+  step keqb hash kd st (OIterBack x) = (st, RWalk (Some (rev (abs K t)))).
+Proof. exact iter_step_results. Qed.
+Print Assumptions C02_iter_step_results.
+
+(* the walk itself, started at the iterator of any rank i (i = size: end()): it visits the i entries before
+   that rank in reverse order and stops at _begin.item, within i + 1 steps *)
+Theorem C02_walk_back_from_rank :
+  forall (K : Type) (ep : option slot) (l : list (node K)),
+  NoDup (map nslot l) -> ep = last_slot K l ->
+  forall (i fuel : nat), (i <= length l)%nat -> (i < fuel)%nat ->
+  walk_back fuel ep l (pos_at K l i) = Some (rev (map (ent K) (firstn i l))).
+Proof. exact walk_back_at. Qed.
+Print Assumptions C02_walk_back_from_rank.
+
 (* ---- non-vacuity: integer keys, ALL keys in one bucket (hash = 0), capacities 7 / 0 (-> 1) / 2 ----- *)
 Definition ex_hash (k : Z) : Z := 0.
 Definition ex_caps : list Z := [7; 0; 2].
@@ -329,7 +396,8 @@ Definition ex_ops : list (op Z) :=
    ORemoveKey 0 10;                       (* middle of the chain, middle of the list *)
    OInsert 0 0 20 9;                      (* present key, other position: keeps rank 2 *)
    OAppend 1 20 9; OAppend 1 30 3; OSwap 0 1; OEq 0 1; OCopy 2 1; OEq 2 1; ORemoveAt 1 1; ORemoveBack 1;
-   OAssign 0 1; OClear 2; OAppend 2 7 7; OFind 1 30; OFind 1 10].
+   OAssign 0 1; OClear 2; OAppend 2 7 7; OFind 1 30; OFind 1 10;
+   OIterFwd 1; OIterBack 1; OIterBack 2].
 Definition ex_states (kd : kind) : list (table Z) := states Z Z.eqb ex_hash kd (start Z ex_caps) ex_ops.
 Definition ex_t : table Z := nth 0 (states Z Z.eqb ex_hash KMap (start Z ex_caps) (firstn 6 ex_ops)) (new_table 0 1).
 
@@ -359,7 +427,8 @@ Example ex_run_nontrivial :
   map fst (spec_run Z.eqb KMap [[]; []; []] ex_ops) =
   [RVal 1; RVal 2; RVal 3; RIter (Some (1%nat, 40, 4)); RVal 5; RNone; RIter (Some (2%nat, 20, 9));
    RVal 9; RVal 3; RNone; RBool false; RNone; RBool true; RIter (Some (1%nat, 20, 9)); RIter None;
-   RNone; RNone; RVal 7; RIter (Some (0%nat, 30, 3)); RIter None].
+   RNone; RNone; RVal 7; RIter (Some (0%nat, 30, 3)); RIter None;
+   RWalk (Some [(30, 3); (20, 9)]); RWalk (Some [(20, 9); (30, 3)]); RWalk (Some [(7, 7)])].
 Proof. vm_compute. reflexivity. Qed.
 
 (* present key: HashMap keeps rank 2 and replaces the value; HashSet / PoolMap return the table itself *)
@@ -423,3 +492,40 @@ Qed.
 Example ex_links : map (fun t => (end_prev t, map nslot (order t), end_owner t)) (ex_states KMap) =
   [(Some (0, 0), [(0, 3); (0, 0)], 0%nat); (Some (0, 3), [(0, 2); (0, 3)], 1%nat); (Some (0, 1), [(0, 1)], 2%nat)].
 Proof. vm_compute. reflexivity. Qed.
+
+(* backward traversal of the table with a four-element chain: the reverse of the forward traversal; the hypotheses
+   of C02_iter_back_is_rev_forward are met by it *)
+Example ex_t_pool : pool_ok Z ex_t.
+Proof.
+  destruct (C02_pool_reachable Z Z.eqb ex_hash KMap ex_caps (firstn 6 ex_ops)) as [_ H].
+  rewrite Forall_forall in H. apply H. vm_compute. left. reflexivity.
+Qed.
+
+Example ex_iter :
+  iter_fwd ex_t = Some [(30, 3); (40, 4); (20, 2); (50, 5)] /\ iter_back ex_t = Some [(50, 5); (20, 2); (40, 4); (30, 3)] /\
+  walk_back 3 (end_prev ex_t) (order ex_t) (pos_at Z (order ex_t) 2) = Some [(40, 4); (30, 3)] /\
+  iter_back (new_table (K:=Z) 0 7) = Some [] /\ iter_back (clear 0 ex_t) = Some [].
+Proof. vm_compute. split; [|split; [|split; [|split]]]; reflexivity. Qed.
+
+(* the invariant is what makes it true: with endItem.prev not designating the last item the walk skips the tail,
+   with a null endItem.prev on a non-empty list it dereferences a null pointer, with two live items sharing a slot
+   it takes the wrong turn *)
+Definition ex_bad_endprev : table Z :=
+  mktable (cap ex_t) (has_data ex_t) (buckets ex_t) (order ex_t) (size ex_t) (free ex_t) (nblocks ex_t) (Some (0, 1)) 0%nat.
+Definition ex_null_endprev : table Z :=
+  mktable (cap ex_t) (has_data ex_t) (buckets ex_t) (order ex_t) (size ex_t) (free ex_t) (nblocks ex_t) None 0%nat.
+Definition ex_shared_slot : table Z :=
+  mktable 7 true (buckets ex_t) [mknode 30 3 (0, 0); mknode 40 4 (0, 1); mknode 20 2 (0, 0); mknode 50 5 (0, 2)] 4 [] 1 (Some (0, 2)) 0%nat.
+Example ex_iter_needs_invariant :
+  map nslot (order ex_t) = [(0, 2); (0, 1); (0, 3); (1, 0)] /\
+  iter_back ex_bad_endprev = Some [(40, 4); (30, 3)] /\ iter_back ex_null_endprev = None /\
+  iter_back ex_shared_slot = Some [(50, 5); (30, 3)].
+Proof. vm_compute. split; [|split; [|split]]; reflexivity. Qed.
+
+(* the per-type hash functions: (usize)v is the value modulo 2^64 - sign extension for the signed types *)
+Example ex_hash_cast :
+  hash_int8 (-1) = 18446744073709551615 /\ hash_uint8 255 = 255 /\ hash_int16 (-32768) = 18446744073709518848 /\
+  hash_uint16 65535 = 65535 /\ hash_uint64 18446744073709551615 = 18446744073709551615 /\ hash_int64 (-2) = 18446744073709551614 /\
+  wrap_int8 255 = -1 /\ wrap_int16 32768 = -32768 /\ wrap_uint64 (-1) = 18446744073709551615 /\
+  bidx hash_int8 (new_table 0 7) (-1) = 1%nat /\ bidx hash_uint8 (new_table 0 7) 255 = 3%nat.
+Proof. vm_compute. repeat split; reflexivity. Qed.
